@@ -534,13 +534,18 @@ def rule_pairs_transpose(ctx) -> RuleResult:
                     pairs[d] = a
         for c in calls_in(f.node):
             if not (isinstance(c.func, ast.Attribute) and c.func.attr == "transpose" and isinstance(c.func.value, ast.Name) and c.func.value.id in pairs
-                    and len(c.args) == 1 and isinstance(c.args[0], ast.Starred) and isinstance(c.args[0].value, ast.Name)):
+                    and len(c.args) == 1 and isinstance(c.args[0], ast.Starred)):
                 continue
-            arr, order = c.func.value.id, c.args[0].value.id
+            arr = c.func.value.id
             D = pairs[arr]
-            defs = [a.value for a in walk_own(f.node) if isinstance(a, ast.Assign) and any(isinstance(t, ast.Name) and t.id == order for t in a.targets)]
+            if isinstance(c.args[0].value, ast.Name):
+                order = c.args[0].value.id
+                defs = [a.value for a in walk_own(f.node) if isinstance(a, ast.Assign) and any(isinstance(t, ast.Name) and t.id == order for t in a.targets)]
+            else:           # the order written inline: transpose(*(X.index(d) for d in ...))
+                order = "<inline>"
+                defs = [c.args[0].value]
             for dv in defs:
-                if isinstance(dv, ast.ListComp) and isinstance(dv.elt, ast.Call) and isinstance(dv.elt.func, ast.Attribute) and dv.elt.func.attr == "index" \
+                if isinstance(dv, (ast.ListComp, ast.GeneratorExp)) and isinstance(dv.elt, ast.Call) and isinstance(dv.elt.func, ast.Attribute) and dv.elt.func.attr == "index" \
                         and isinstance(dv.elt.func.value, ast.Name):
                     n += 1
                     src = dv.elt.func.value.id
